@@ -346,14 +346,27 @@ fn argument_separator(input: &[u8]) -> ParseResult<()> {
 
 /// Parses an argument value.
 fn argument(input: &[u8]) -> ParseResult<Value<'_>> {
-    characters(input)
-        .or_else(|_| decimal_numeric_program_data(input))
-        .or_else(|_| hexadecimal_numeric_program_data(input))
-        .or_else(|_| binary_numeric_program_data(input))
-        .or_else(|_| octal_numeric_program_data(input))
-        .or_else(|_| single_quoted_string_program_data(input))
-        .or_else(|_| double_quoted_string_program_data(input))
-        .or_else(|_| arbitrary_program_data(input))
+    const ALTERNATIVES: [fn(&[u8]) -> ParseResult<Value<'_>>; 8] = [
+        characters,
+        decimal_numeric_program_data,
+        hexadecimal_numeric_program_data,
+        binary_numeric_program_data,
+        octal_numeric_program_data,
+        single_quoted_string_program_data,
+        double_quoted_string_program_data,
+        arbitrary_program_data,
+    ];
+
+    let mut result = Err(ParseError::SoftError(None));
+    for alternative in ALTERNATIVES {
+        result = alternative(input);
+        // An alternative that ran out of input has recognized its data type,
+        // the remaining alternatives must not replace `Incomplete` by an error.
+        if matches!(result, Ok(_) | Err(ParseError::Incomplete)) {
+            break;
+        }
+    }
+    result
 }
 
 /// Parses multiple arguments separated by commas.
